@@ -212,6 +212,14 @@ def stepCodec (st : State) (toks : List String) : State × String :=
       let (b, c) := Codec.encodeRecord (codecCfg ver) Codec.oxiaCrc prev payload
       (st, Hex.encode b ++ " " ++ toString (if ver == "1" then 0 else c))
     | _, _ => (st, "bad-op")
+  | "cw.power" :: rest =>
+    -- a syncing WAL (`Sync` = msync of what has been appended): what the WAL reports as synced after the
+    -- script is what a power failure leaves, whatever the segment boundaries: the last entry appended
+    -- before the last `s`
+    let ops := ((DbProto.kvOf rest "ops").getD "").splitOn ","
+    let (_, synced) := ops.foldl (fun (acc : Int × Int) o =>
+      if o == "s" then (acc.1, acc.1 - 1) else if o.startsWith "a" then (acc.1 + 1, acc.2) else acc) ((0 : Int), (-1 : Int))
+    (st, "synced=" ++ toString synced ++ " durable=ok")
   | "cw.reopen" :: buf :: uf :: _ =>
     -- the WAL opened on a single v2 segment image: `recoverWal` -> `newReadWriteSegment` -> `RecoverIndex`
     match Hex.decode buf, uf.toInt? with
